@@ -82,22 +82,19 @@ Proof.
   - change (256 ^ N.of_nat 8)%N with 18446744073709551616%N. lia.
 Qed.
 
+(* destruct every if / match scrutinee of hypothesis H (small model functions only) *)
+Ltac break_in H :=
+  repeat match type of H with
+         | context [if ?b then _ else _] => destruct b eqn:?
+         | context [match ?x with _ => _ end] => destruct x eqn:?
+         end; try discriminate H.
+
 Definition int64_range (z : Z) : Prop := - 9223372036854775808 <= z < 9223372036854775808.
 
-Section C10.
-  Variable Store : Type.
-  Variable w_put : Store -> witem -> Z -> Store * put_result.
-  Variable w_get : Store -> bytes -> Z -> Store * get_result.
+Section Tokens.
   Variable sha1 : bytes -> bytes.
-  Variable id_secure : N -> bytes -> bool.
   Variable cfg : config.
 
-  Notation sstate := (sstate Store).
-  Notation step := (step Store w_put w_get sha1 id_secure cfg).
-  Notation dispatch := (dispatch Store w_put w_get sha1 id_secure cfg).
-  Notation handle_query := (handle_query Store w_put w_get sha1 id_secure cfg).
-  Notation update_node := (update_node Store id_secure cfg).
-  Notation add_node := (add_node Store id_secure cfg).
   Notation token_for := (token_for sha1 cfg).
   Notation create_token := (create_token sha1 cfg).
   Notation valid_token := (valid_token sha1 cfg).
@@ -183,5 +180,586 @@ Section C10.
     assert (Hj : 0 <= u / 300000000000 - t / 300000000000 <= 2) by (Z.to_euclidean_division_equations; lia).
     split; [lia|]. f_equal. rewrite Z2Nat.id by lia.
     Z.to_euclidean_division_equations; lia.
+  Qed.
+  (* equality of two tokens: equal preimages, or a SHA-1 collision between them *)
+  Lemma token_eq_idx x x' c c' i i' :
+    length x = 16%nat -> length x' = 16%nat ->
+    Server.token_for sha1 c x i = Server.token_for sha1 c' x' i' ->
+    (x = x' /\ i mod 18446744073709551616 = i' mod 18446744073709551616 /\ c_secret c = c_secret c')
+    \/ collision (tok_pre c x i) (tok_pre c' x' i').
+  Proof.
+    intros Hx Hx' H. apply token_eq_cases in H. destruct H as [H|H]; [left|right; exact H].
+    exact (tok_pre_inj _ _ _ _ _ _ Hx Hx' H).
+  Qed.
+
+  (* arithmetic core of the upper bound *)
+  Lemma idx_match_bounds t u j :
+    0 <= t < 9223372036854775808 -> int64_range u -> (j <= Z.to_nat token_max_delta)%nat ->
+    token_idx t mod 18446744073709551616 =
+      token_idx (u - Z.of_nat j * token_interval_ns) mod 18446744073709551616 ->
+    u - t < (token_max_delta + 1) * token_interval_ns /\ (0 <= u -> - token_interval_ns < u - t).
+  Proof.
+    unfold int64_range, token_idx, token_max_delta, token_interval_ns. intros Ht Hu Hj H.
+    assert (Hj' : 0 <= Z.of_nat j <= 2) by lia. revert H. generalize (Z.of_nat j) Hj'. clear Hj Hj'.
+    intros k Hk H. Z.to_euclidean_division_equations; lia.
+  Qed.
+
+  (* not honoured 15 minutes (max_delta + 1 intervals) or more after issue — unless SHA-1
+     collides on two of the compared preimages.  [0 <= t]: token_idx truncates towards zero as Go's
+     integer division does; the int64 bounds are those of time.UnixNano (be64 = uint64 conversion
+     wraps modulo 2^64, the model's times are unbounded integers). *)
+  Theorem C10_window_upper_or_collision a a' x t u tok :
+    0 <= t < 9223372036854775808 -> int64_range u ->
+    to16 (ip a) = Some x -> to16 (ip a') = Some x ->
+    create_token a t = Some tok -> valid_token tok a' u = Some true ->
+    (u - t < (token_max_delta + 1) * token_interval_ns /\ (0 <= u -> - token_interval_ns < u - t))
+    \/ exists j, (j <= Z.to_nat token_max_delta)%nat /\
+         collision (tok_pre cfg x (token_idx t)) (tok_pre cfg x (token_idx (u - Z.of_nat j * token_interval_ns))).
+  Proof.
+    intros Ht Hu Ha Ha' Hc Hv. unfold Server.create_token in Hc. rewrite Ha in Hc.
+    apply Some_inj in Hc. subst tok.
+    unfold Server.valid_token in Hv. rewrite Ha' in Hv. apply Some_inj in Hv.
+    apply valid_token_iff in Hv. destruct Hv as (j & Hj & Hv).
+    pose proof (to16_length _ _ Ha) as Hx.
+    apply token_eq_idx in Hv; [|exact Hx|exact Hx]. destruct Hv as [(_ & Hv & _)|Hv].
+    - left. exact (idx_match_bounds t u j Ht Hu Hj Hv).
+    - right. exists j. split; [exact Hj | exact Hv].
+  Qed.
+
+  Definition sha1_injective : Prop := forall p q : bytes, sha1 p = sha1 q -> p = q.
+
+  Lemma no_collision p q : sha1_injective -> ~ collision p q.
+  Proof. intros Hinj [Hne He]. apply Hne, Hinj, He. Qed.
+
+  Theorem C10_window_upper a a' x t u tok :
+    sha1_injective ->
+    0 <= t < 9223372036854775808 -> int64_range u ->
+    to16 (ip a) = Some x -> to16 (ip a') = Some x ->
+    create_token a t = Some tok -> valid_token tok a' u = Some true ->
+    u - t < (token_max_delta + 1) * token_interval_ns /\ (0 <= u -> - token_interval_ns < u - t).
+  Proof.
+    intros Hinj Ht Hu Ha Ha' Hc Hv.
+    destruct (C10_window_upper_or_collision a a' x t u tok Ht Hu Ha Ha' Hc Hv) as [H | (j & _ & H)].
+    - exact H.
+    - exfalso. exact (no_collision _ _ Hinj H).
+  Qed.
+
+  (* the exact acceptance window on the rotation grid (both after 1970) *)
+  Theorem C10_window_exact a a' x t u tok :
+    sha1_injective ->
+    0 <= t < 9223372036854775808 -> 0 <= u < 9223372036854775808 ->
+    to16 (ip a) = Some x -> to16 (ip a') = Some x ->
+    create_token a t = Some tok ->
+    (valid_token tok a' u = Some true <->
+     0 <= u / token_interval_ns - t / token_interval_ns <= token_max_delta).
+  Proof.
+    intros Hinj Ht Hu Ha Ha' Hc. unfold Server.create_token in Hc. rewrite Ha in Hc.
+    apply Some_inj in Hc. subst tok. unfold Server.valid_token. rewrite Ha'.
+    pose proof (to16_length _ _ Ha) as Hx. split.
+    - intros Hv. apply Some_inj in Hv. apply valid_token_iff in Hv. destruct Hv as (j & Hj & Hv).
+      apply token_eq_idx in Hv; [|exact Hx|exact Hx]. destruct Hv as [(_ & Hv & _)|Hv].
+      2:{ exfalso. exact (no_collision _ _ Hinj Hv). }
+      revert Hv. unfold token_idx, token_max_delta, token_interval_ns in *.
+      assert (Hj' : 0 <= Z.of_nat j <= 2) by lia. generalize (Z.of_nat j) Hj'. clear Hj Hj'.
+      intros k Hk H. Z.to_euclidean_division_equations; lia.
+    - intros H. f_equal. apply valid_token_iff.
+      exists (Z.to_nat (u / token_interval_ns - t / token_interval_ns)).
+      unfold token_idx, token_max_delta, token_interval_ns in *.
+      split; [lia|]. f_equal. rewrite Z2Nat.id by lia.
+      Z.to_euclidean_division_equations; lia.
+  Qed.
+
+  (* a token issued to another IP (different To16 form) is refused at every time *)
+  Theorem C10_other_ip_rejected_or_collision a a' x x' t u tok :
+    to16 (ip a) = Some x -> to16 (ip a') = Some x' -> x <> x' ->
+    create_token a t = Some tok ->
+    valid_token tok a' u = Some false
+    \/ exists j, (j <= Z.to_nat token_max_delta)%nat /\
+         collision (tok_pre cfg x (token_idx t)) (tok_pre cfg x' (token_idx (u - Z.of_nat j * token_interval_ns))).
+  Proof.
+    intros Ha Ha' Hne Hc. unfold Server.create_token in Hc. rewrite Ha in Hc.
+    apply Some_inj in Hc. subst tok. unfold Server.valid_token. rewrite Ha'.
+    destruct (Server.valid_token_from sha1 cfg x' (token_for x (token_idx t)) u (Z.to_nat token_max_delta)) eqn:Hv;
+      [|left; reflexivity].
+    apply valid_token_iff in Hv. destruct Hv as (j & Hj & Hv).
+    apply token_eq_idx in Hv; [|exact (to16_length _ _ Ha)|exact (to16_length _ _ Ha')].
+    destruct Hv as [(Hv & _)|Hv]; [contradiction|]. right. exists j. split; [exact Hj | exact Hv].
+  Qed.
+
+  Theorem C10_other_ip_rejected a a' x x' t u tok :
+    sha1_injective ->
+    to16 (ip a) = Some x -> to16 (ip a') = Some x' -> x <> x' ->
+    create_token a t = Some tok -> valid_token tok a' u = Some false.
+  Proof.
+    intros Hinj Ha Ha' Hne Hc.
+    destruct (C10_other_ip_rejected_or_collision a a' x x' t u tok Ha Ha' Hne Hc) as [H | (j & _ & H)].
+    - exact H.
+    - exfalso. exact (no_collision _ _ Hinj H).
+  Qed.
+
+  (* a token made by another node (another secret, of any length) is refused, for every pair of
+     addresses and times *)
+  Theorem C10_other_secret_rejected_or_collision cfg' a a' x x' t u tok :
+    c_secret cfg' <> c_secret cfg ->
+    to16 (ip a) = Some x -> to16 (ip a') = Some x' ->
+    Server.create_token sha1 cfg' a t = Some tok ->
+    valid_token tok a' u = Some false
+    \/ exists j, (j <= Z.to_nat token_max_delta)%nat /\
+         collision (tok_pre cfg' x (token_idx t)) (tok_pre cfg x' (token_idx (u - Z.of_nat j * token_interval_ns))).
+  Proof.
+    intros Hne Ha Ha' Hc. unfold Server.create_token in Hc. rewrite Ha in Hc.
+    apply Some_inj in Hc. subst tok. unfold Server.valid_token. rewrite Ha'.
+    destruct (Server.valid_token_from sha1 cfg x' (Server.token_for sha1 cfg' x (token_idx t)) u (Z.to_nat token_max_delta)) eqn:Hv;
+      [|left; reflexivity].
+    apply valid_token_iff in Hv. destruct Hv as (j & Hj & Hv).
+    apply token_eq_idx in Hv; [|exact (to16_length _ _ Ha)|exact (to16_length _ _ Ha')].
+    destruct Hv as [(_ & _ & Hv)|Hv]; [contradiction|]. right. exists j. split; [exact Hj | exact Hv].
+  Qed.
+
+  Theorem C10_other_secret_rejected cfg' a a' x x' t u tok :
+    sha1_injective ->
+    c_secret cfg' <> c_secret cfg ->
+    to16 (ip a) = Some x -> to16 (ip a') = Some x' ->
+    Server.create_token sha1 cfg' a t = Some tok -> valid_token tok a' u = Some false.
+  Proof.
+    intros Hinj Hne Ha Ha' Hc.
+    destruct (C10_other_secret_rejected_or_collision cfg' a a' x x' t u tok Hne Ha Ha' Hc) as [H | (j & _ & H)].
+    - exact H.
+    - exfalso. exact (no_collision _ _ Hinj H).
+  Qed.
+  (* why the int64 bounds are there: the model's times are unbounded integers while the interval
+     index goes through uint64 (mod 2^64); 2^64 intervals after issue the index repeats.  Not
+     reachable in the Go code, whose times are int64 nanoseconds. *)
+  Lemma C10_window_upper_needs_int64 a tok :
+    create_token a 0 = Some tok ->
+    valid_token tok a (18446744073709551616 * token_interval_ns) = Some true.
+  Proof.
+    unfold Server.create_token, Server.valid_token. destruct (to16 (ip a)) as [x|]; [|discriminate].
+    intros H. apply Some_inj in H. subst tok. f_equal. apply valid_token_iff. exists 0%nat. split; [lia|].
+    replace (18446744073709551616 * token_interval_ns - Z.of_nat 0 * token_interval_ns)
+      with (18446744073709551616 * token_interval_ns) by lia.
+    assert (E : be64 (token_idx 0) = be64 (token_idx (18446744073709551616 * token_interval_ns))) by (vm_compute; reflexivity).
+    unfold Server.token_for. rewrite E. reflexivity.
+  Qed.
+End Tokens.
+
+Section C10.
+  Variable Store : Type.
+  Variable w_put : Store -> witem -> Z -> Store * put_result.
+  Variable w_get : Store -> bytes -> Z -> Store * get_result.
+  Variable sha1 : bytes -> bytes.
+  Variable id_secure : N -> bytes -> bool.
+  Variable cfg : config.
+
+  Notation sstate := (sstate Store).
+  Notation step := (step Store w_put w_get sha1 id_secure cfg).
+  Notation dispatch := (dispatch Store w_put w_get sha1 id_secure cfg).
+  Notation handle_query := (handle_query Store w_put w_get sha1 id_secure cfg).
+  Notation update_node := (update_node Store id_secure cfg).
+  Notation add_node := (add_node Store id_secure cfg).
+  Notation token_for := (token_for sha1 cfg).
+  Notation create_token := (create_token sha1 cfg).
+  Notation valid_token := (valid_token sha1 cfg).
+  Notation valid_token_from := (valid_token_from sha1 cfg).
+
+  (* ================================================================ Part 2: frames *)
+
+  (* everything but the routing table (s_nodes, s_index) is the same *)
+  Definition same_rest (s s' : sstate) : Prop :=
+    s_now s' = s_now s /\ s_pending s' = s_pending s /\ s_peers s' = s_peers s /\
+    s_store s' = s_store s /\ s_blocklist s' = s_blocklist s /\ s_closed s' = s_closed s /\
+    s_next_t s' = s_next_t s /\ s_budget s' = s_budget s.
+
+  Lemma same_rest_refl s : same_rest s s.
+  Proof. repeat split. Qed.
+
+  Lemma same_rest_trans s1 s2 s3 : same_rest s1 s2 -> same_rest s2 s3 -> same_rest s1 s3.
+  Proof. unfold same_rest. intuition congruence. Qed.
+
+  Lemma drop_node_rest s n s' : drop_node Store cfg s n = Ok _ s' -> same_rest s s'.
+  Proof.
+    unfold drop_node. intros H. break_in H. injection H as <-. repeat split.
+  Qed.
+
+  Lemma table_add_rest s n s' : table_add Store cfg s n = Ok _ s' -> same_rest s s'.
+  Proof.
+    unfold table_add. intros H. break_in H. injection H as <-. repeat split.
+  Qed.
+
+  Lemma add_node_rest s n v s' r : add_node s n v = Ok _ (s', r) -> same_rest s s'.
+  Proof.
+    unfold Server.add_node. intros H. break_in H;
+      try (injection H as <- <-; apply same_rest_refl).
+    - injection H as <- <-.
+      eapply same_rest_trans; [eapply drop_node_rest|eapply table_add_rest]; eassumption.
+    - injection H as <- <-. eapply table_add_rest; eassumption.
+  Qed.
+
+  Lemma update_node_rest s a id ta u v s' r : update_node s a id ta u v = Ok _ (s', r) -> same_rest s s'.
+  Proof.
+    unfold Server.update_node. intros H.
+    destruct id as [i|]; [|injection H as <- <-; apply same_rest_refl].
+    destruct (get_node cfg (s_nodes s) a i).
+    - destruct v; injection H as <- <-; [apply same_rest_refl | repeat split].
+    - destruct (negb ta || N.eqb i (c_root cfg)).
+      + injection H as <- <-. apply same_rest_refl.
+      + eapply add_node_rest. exact H.
+  Qed.
+  (* everything but the limiter budget is the same *)
+  Definition same_but_budget (s s' : sstate) : Prop :=
+    s_now s' = s_now s /\ s_nodes s' = s_nodes s /\ s_index s' = s_index s /\
+    s_pending s' = s_pending s /\ s_peers s' = s_peers s /\
+    s_store s' = s_store s /\ s_blocklist s' = s_blocklist s /\ s_closed s' = s_closed s /\
+    s_next_t s' = s_next_t s.
+
+  Lemma write_rated_spec s dst m k s' out :
+    write_rated Store s dst m k = (s', out) ->
+    same_but_budget s s' /\ (out = [ESend dst m k] \/ exists n, out = [EDropped n]).
+  Proof.
+    unfold write_rated. intros H. break_in H; injection H as <- <-;
+      (split; [repeat split | first [left; reflexivity | right; eexists; reflexivity]]).
+  Qed.
+
+  Lemma lift_write_rated s dst m k s' out :
+    lift Store (write_rated Store s dst m k) = HQ Store s' out ->
+    same_but_budget s s' /\ (out = [ESend dst m k] \/ exists n, out = [EDropped n]).
+  Proof.
+    unfold lift. intros H. injection H as H1 H2. apply write_rated_spec.
+    rewrite <- H1, <- H2. apply surjective_pairing.
+  Qed.
+
+  (* the filters in front of handleQuery's switch: serve() (oversize, port 0, closed, blocklist),
+     the OnQuery veto and passive mode *)
+  Definition passes (s : sstate) (src : addr) (size : N) (m : msg) : bool :=
+    negb (N.eqb size (Z.to_N udp_buf)) && negb (N.eqb (port src) 0) && negb (s_closed s)
+    && negb (blocked (s_blocklist s) (ip src)) && c_hook cfg m && negb (c_passive cfg).
+
+  (* a query datagram: the sender's table entry is updated (s1), then either the packet is
+     dropped / vetoed / ignored by a passive node without any output, or the method switch runs *)
+  Lemma step_query_inv s src size m ch s' out :
+    bytes_eqb (m_y m) s_q = true ->
+    step s (EPacket src size (Some m)) ch = SR Store s' out ->
+    exists s1, same_rest s s1 /\
+      if passes s src size m then dispatch s1 src m ch = HQ Store s' out
+      else s' = s1 /\ out = [].
+  Proof.
+    intros Hq H. unfold passes. cbn [Server.step] in H.
+    destruct (N.eqb size (Z.to_N udp_buf)); cbn [negb andb].
+    { injection H as <- <-. exists s. split; [apply same_rest_refl | split; reflexivity]. }
+    destruct (N.eqb (port src) 0); cbn [negb andb].
+    { injection H as <- <-. exists s. split; [apply same_rest_refl | split; reflexivity]. }
+    destruct (s_closed s); cbn [negb andb].
+    { injection H as <- <-. exists s. split; [apply same_rest_refl | split; reflexivity]. }
+    destruct (blocked (s_blocklist s) (ip src)); cbn [negb andb].
+    { injection H as <- <-. exists s. split; [apply same_rest_refl | split; reflexivity]. }
+    rewrite Hq in H. unfold Server.handle_query in H.
+    destruct (update_node s src (option_map id_of (sender_id m)) (negb (m_ro m)) UQuery (ch_victim ch))
+      as [[s1 r]|] eqn:Hu; [|discriminate].
+    apply update_node_rest in Hu. exists s1. split; [exact Hu|].
+    destruct (c_hook cfg m); cbn [negb andb].
+    - destruct (c_passive cfg); cbn [negb andb].
+      + destruct r; try discriminate; injection H as <- <-; split; reflexivity.
+      + destruct r; try discriminate;
+          (destruct (dispatch s1 src m ch) eqn:Hd; try discriminate; injection H as <- <-; reflexivity).
+    - destruct r; try discriminate; injection H as <- <-; split; reflexivity.
+  Qed.
+
+  (* the method switch, one lemma per method (the method names are pairwise different) *)
+  Lemma dispatch_announce s src m ch :
+    m_q m = s_announce_peer ->
+    dispatch s src m ch =
+      match m_a m with
+      | None => lift Store (send_error Store s src (m_t m) err_missing_args)
+      | Some a =>
+          match valid_token (a_token a) src (s_now s) with
+          | None => HQPanic Store
+          | Some false => HQ Store s []
+          | Some true =>
+              let p0 := match a_port a with Some p => (p, true) | None => (0%Z, false) end in
+              let p1 := if a_implied_port a then (Z.of_N (port src), true) else p0 in
+              let cb := if c_announce_cb cfg then [EAnnounceCb (a_info_hash a) (ip src) (fst p1) (snd p1)] else [] in
+              let s1 := if c_peer_store cfg then with_peers Store s (add_peer (s_peers s) (mkPeer (a_info_hash a) (ip src) (fst p1))) else s in
+              let st := if c_peer_store cfg then [EPeerAdd (a_info_hash a) (ip src) (fst p1)] else [] in
+              let '(s2, out) := reply Store cfg s1 src (m_t m) empty_return in
+              HQ Store s2 (cb ++ st ++ out)
+          end
+      end.
+  Proof. intros Hq. unfold Server.dispatch. rewrite Hq. reflexivity. Qed.
+  Lemma dispatch_put s src m ch :
+    m_q m = s_put ->
+    dispatch s src m ch =
+      match m_a m with
+      | None => lift Store (send_error Store s src (m_t m) err_missing_args)
+      | Some a =>
+          match valid_token (a_token a) src (s_now s) with
+          | None => HQPanic Store
+          | Some false => HQ Store s []
+          | Some true =>
+              match a_seq a with
+              | None => lift Store (send_error Store s src (m_t m) err_expected_seq)
+              | Some seq =>
+                  let it := mkItem (option_map benc (a_v a)) (a_k a) (a_salt a) (a_sig a) (a_cas a) seq in
+                  let '(st, res) := w_put (s_store s) it (s_now s) in
+                  let s1 := with_store Store s st in
+                  match res with
+                  | PutOk => lift Store (reply Store cfg s1 src (m_t m) empty_return)
+                  | PutKrpcErr e => lift Store (send_error Store s1 src (m_t m) e)
+                  | PutOtherErr => lift Store (send_error Store s1 src (m_t m) err_method_unknown)
+                  end
+              end
+          end
+      end.
+  Proof. intros Hq. unfold Server.dispatch. rewrite Hq. reflexivity. Qed.
+
+  (* ================================================================ Part 3: the handlers *)
+
+  (* announce_peer / put with a token that does not validate: no datagram, no callback, no store
+     call; only the sender's routing-table entry may have changed *)
+  Theorem C10_effect s src size m a ch s' out :
+    m_y m = s_q -> (m_q m = s_announce_peer \/ m_q m = s_put) -> m_a m = Some a ->
+    valid_token (a_token a) src (s_now s) = Some false ->
+    step s (EPacket src size (Some m)) ch = SR Store s' out ->
+    out = [] /\ same_rest s s'.
+  Proof.
+    intros Hy Hq Ha Hv H. apply bytes_eqb_eq in Hy.
+    destruct (step_query_inv s src size m ch s' out Hy H) as (s1 & Hr & Hd).
+    destruct (passes s src size m).
+    - assert (Hnow : s_now s1 = s_now s) by apply Hr.
+      destruct Hq as [Hq|Hq]; [rewrite (dispatch_announce s1 src m ch Hq) in Hd
+                              | rewrite (dispatch_put s1 src m ch Hq) in Hd];
+        rewrite Ha, Hnow, Hv in Hd; injection Hd as <- <-; (split; [reflexivity | exact Hr]).
+    - destruct Hd as [-> ->]. split; [reflexivity | exact Hr].
+  Qed.
+
+  (* what counts as the write having taken effect, besides the two stores *)
+  Definition is_write_effect (e : effect) : bool :=
+    match e with
+    | ESend _ _ SReply => true
+    | EAnnounceCb _ _ _ _ => true
+    | EPeerAdd _ _ _ => true
+    | _ => false
+    end.
+
+  (* ... and conversely: a stored peer, a changed BEP 44 store, a callback or a reply imply that the
+     query carried a token that validated for its source at that moment *)
+  Theorem C10_effect_only_with_valid_token s src size m ch s' out :
+    m_y m = s_q -> (m_q m = s_announce_peer \/ m_q m = s_put) ->
+    step s (EPacket src size (Some m)) ch = SR Store s' out ->
+    (s_peers s' <> s_peers s \/ s_store s' <> s_store s \/ exists e, In e out /\ is_write_effect e = true) ->
+    exists a, m_a m = Some a /\ valid_token (a_token a) src (s_now s) = Some true.
+  Proof.
+    intros Hy Hq H Heff. apply bytes_eqb_eq in Hy.
+    destruct (step_query_inv s src size m ch s' out Hy H) as (s1 & Hr & Hd).
+    assert (Hnone : s_peers s' = s_peers s -> s_store s' = s_store s ->
+                    (forall e, In e out -> is_write_effect e = false) -> False).
+    { intros H1 H2 H3. destruct Heff as [E|[E|(e & He & E)]]; [tauto | tauto |].
+      rewrite (H3 e He) in E. discriminate. }
+    destruct Hr as (Hnow & _ & Hpe & Hst & _).
+    destruct (passes s src size m).
+    2:{ destruct Hd as [-> ->]. exfalso. apply Hnone; [exact Hpe | exact Hst | intros e []]. }
+    assert (Herr : forall e0, lift Store (send_error Store s1 src (m_t m) e0) = HQ Store s' out -> False).
+    { intros e0 Hl. apply lift_write_rated in Hl. destruct Hl as [Hb Ho]. apply Hnone.
+      - destruct Hb as (_ & _ & _ & _ & E & _). congruence.
+      - destruct Hb as (_ & _ & _ & _ & _ & E & _). congruence.
+      - intros e He. destruct Ho as [-> | [n ->]]; destruct He as [<- | []]; reflexivity. }
+    destruct Hq as [Hq|Hq]; [rewrite (dispatch_announce s1 src m ch Hq) in Hd
+                            | rewrite (dispatch_put s1 src m ch Hq) in Hd].
+    - destruct (m_a m) as [a|]; [|exfalso; exact (Herr _ Hd)].
+      rewrite Hnow in Hd. destruct (valid_token (a_token a) src (s_now s)) as [[|]|] eqn:Hv; try discriminate.
+      + exists a. split; [reflexivity | exact Hv].
+      + injection Hd as <- <-. exfalso. apply Hnone; [exact Hpe | exact Hst | intros e []].
+    - destruct (m_a m) as [a|]; [|exfalso; exact (Herr _ Hd)].
+      rewrite Hnow in Hd. destruct (valid_token (a_token a) src (s_now s)) as [[|]|] eqn:Hv; try discriminate.
+      + exists a. split; [reflexivity | exact Hv].
+      + injection Hd as <- <-. exfalso. apply Hnone; [exact Hpe | exact Hst | intros e []].
+  Qed.
+  Lemma dispatch_get_peers s src m ch :
+    m_q m = s_get_peers ->
+    dispatch s src m ch =
+      match m_a m with
+      | None => lift Store (send_error Store s src (m_t m) err_missing_args)
+      | Some a =>
+          let r0 :=
+            if c_peer_store cfg then
+              let expect := map (fun x => mkNA (na_ip x) (wire_port (na_port x)))
+                                (filter_peers (ip src) (want_list a) (get_peers_of Store s (a_info_hash a))) in
+              if is_perm_na (ch_values ch) expect then
+                match create_token src (s_now s) with
+                | None => None
+                | Some tok => Some (ret_with_token (ret_with_values empty_return (opt_nonempty (ch_values ch))) (Some tok))
+                end
+              else None
+            else match ch_values ch with [] => Some empty_return | _ => None end in
+          match r0 with
+          | None => HQBadChoice Store
+          | Some r =>
+              match r_values r with
+              | Some _ => match ch_nodes ch, ch_nodes6 ch with
+                          | [], [] => lift Store (reply Store cfg s src (m_t m) r)
+                          | _, _ => HQBadChoice Store
+                          end
+              | None => match set_return_nodes Store id_secure cfg s src a (id_of (a_info_hash a)) ch r with
+                        | None => HQBadChoice Store
+                        | Some r' => lift Store (reply Store cfg s src (m_t m) r')
+                        end
+              end
+          end
+      end.
+  Proof. intros Hq. unfold Server.dispatch. rewrite Hq. reflexivity. Qed.
+
+  Lemma dispatch_get s src m ch :
+    m_q m = s_get ->
+    dispatch s src m ch =
+      match m_a m with
+      | None => lift Store (send_error Store s src (m_t m) err_missing_args)
+      | Some a =>
+          match set_return_nodes Store id_secure cfg s src a (id_of (a_target a)) ch empty_return with
+          | None => HQBadChoice Store
+          | Some r0 =>
+              match create_token src (s_now s) with
+              | None => HQPanic Store
+              | Some tok =>
+                  let r := ret_with_token r0 (Some tok) in
+                  let '(st, res) := w_get (s_store s) (a_target a) (s_now s) in
+                  let s1 := with_store Store s st in
+                  match res with
+                  | GetNotFound => lift Store (reply Store cfg s1 src (m_t m) r)
+                  | GetKrpcErr e => lift Store (send_error Store s1 src (m_t m) e)
+                  | GetOtherErr txt => lift Store (send_error Store s1 src (m_t m) (mkErr err_GenericError txt))
+                  | GetItem it =>
+                      let rs := mkRet (r_id r) (r_nodes r) (r_nodes6 r) (r_token r) (r_values r) (r_bfsd r) (r_bfpe r)
+                                      (r_interval r) (r_num r) (r_samples r) (r_v r) (r_k r) (r_sig r) (Some (it_seq it)) in
+                      let gated := match a_seq a with Some q => Z.leb (it_seq it) q | None => false end in
+                      if gated then lift Store (reply Store cfg s1 src (m_t m) rs)
+                      else
+                        match it_bv it with
+                        | None => HQPanic Store
+                        | Some bv =>
+                            lift Store (reply Store cfg s1 src (m_t m)
+                                   (mkRet (r_id rs) (r_nodes rs) (r_nodes6 rs) (r_token rs) (r_values rs) (r_bfsd rs)
+                                          (r_bfpe rs) (r_interval rs) (r_num rs) (r_samples rs) bv (it_k it) (it_sig it)
+                                          (r_seq rs)))
+                        end
+                  end
+              end
+          end
+      end.
+  Proof. intros Hq. unfold Server.dispatch. rewrite Hq. reflexivity. Qed.
+
+  Lemma set_return_nodes_keeps s src a tg ch r r' :
+    set_return_nodes Store id_secure cfg s src a tg ch r = Some r' ->
+    r_token r' = r_token r /\ r_values r' = r_values r /\
+    r_nodes r' = opt_nonempty (ch_nodes ch) /\ r_nodes6 r' = opt_nonempty (ch_nodes6 ch).
+  Proof.
+    unfold set_return_nodes. intros H.
+    match type of H with (if ?b then _ else _) = _ => destruct b end; [|discriminate].
+    injection H as <-. repeat split.
+  Qed.
+
+  (* a reply datagram, or nothing (closed / blocked / no budget) *)
+  Lemma lift_reply s src t r s' out :
+    lift Store (reply Store cfg s src t r) = HQ Store s' out ->
+    same_but_budget s s' /\
+    forall d rm k, In (ESend d rm k) out ->
+      d = src /\ k = SReply /\ rm = reply_msg cfg src t r.
+  Proof.
+    unfold reply. intros H. apply lift_write_rated in H. destruct H as [Hb Ho]. split; [exact Hb|].
+    intros d rm k Hin. destruct Ho as [-> | [n ->]]; destruct Hin as [E | []]; [|discriminate].
+    injection E as <- <- <-. repeat split.
+  Qed.
+
+  Lemma lift_error s src t e s' out :
+    lift Store (send_error Store s src t e) = HQ Store s' out ->
+    same_but_budget s s' /\
+    forall d rm k, In (ESend d rm k) out ->
+      d = src /\ k = SError /\ rm = error_msg t e.
+  Proof.
+    unfold send_error. intros H. apply lift_write_rated in H. destruct H as [Hb Ho]. split; [exact Hb|].
+    intros d rm k Hin. destruct Ho as [-> | [n ->]]; destruct Hin as [E | []]; [|discriminate].
+    injection E as <- <- <-. repeat split.
+  Qed.
+
+  (* get_peers with the peer store configured: what the accepted outcomes look like *)
+  Lemma dispatch_get_peers_spec s src m a ch s' out :
+    m_q m = s_get_peers -> m_a m = Some a -> c_peer_store cfg = true ->
+    dispatch s src m ch = HQ Store s' out ->
+    is_perm_na (ch_values ch)
+      (map (fun x => mkNA (na_ip x) (wire_port (na_port x)))
+           (filter_peers (ip src) (want_list a) (get_peers_of Store s (a_info_hash a)))) = true
+    /\ same_but_budget s s'
+    /\ exists tok, create_token src (s_now s) = Some tok /\
+       forall d rm k, In (ESend d rm k) out ->
+         d = src /\ k = SReply /\
+         exists r, m_r rm = Some r /\ r_values r = opt_nonempty (ch_values ch) /\ r_token r = Some tok.
+  Proof.
+    intros Hq Ha Hps H. rewrite (dispatch_get_peers s src m ch Hq), Ha, Hps in H. cbv zeta in H.
+    destruct (is_perm_na (ch_values ch) _) eqn:Hperm; [|discriminate]. split; [reflexivity|].
+    destruct (create_token src (s_now s)) as [tok|] eqn:Htok; [|discriminate].
+    cbn [r_values ret_with_token ret_with_values] in H.
+    destruct (opt_nonempty (ch_values ch)) as [vs|] eqn:Hvs.
+    - destruct (ch_nodes ch); [|discriminate]. destruct (ch_nodes6 ch); [|discriminate].
+      apply lift_reply in H. destruct H as [Hb Ho]. split; [exact Hb|]. exists tok. split; [reflexivity|].
+      intros d rm k Hin. destruct (Ho d rm k Hin) as (-> & -> & ->). split; [reflexivity|]. split; [reflexivity|].
+      eexists. split; [reflexivity|]. cbn. split; reflexivity.
+    - destruct (set_return_nodes _ _ _ _ _ _ _ _ _) as [r'|] eqn:Hs; [|discriminate].
+      apply set_return_nodes_keeps in Hs. destruct Hs as (Ht & Hv & _).
+      apply lift_reply in H. destruct H as [Hb Ho]. split; [exact Hb|]. exists tok. split; [reflexivity|].
+      intros d rm k Hin. destruct (Ho d rm k Hin) as (-> & -> & ->). split; [reflexivity|]. split; [reflexivity|].
+      eexists. split; [reflexivity|]. cbn [r_values r_token]. rewrite Ht, Hv. split; reflexivity.
+  Qed.
+
+  (* get: every reply (not the error answers) carries the token *)
+  Lemma dispatch_get_spec s src m ch s' out :
+    m_q m = s_get ->
+    dispatch s src m ch = HQ Store s' out ->
+    forall d rm k r, In (ESend d rm k) out -> m_r rm = Some r ->
+      d = src /\ k = SReply /\ exists tok, create_token src (s_now s) = Some tok /\ r_token r = Some tok.
+  Proof.
+    intros Hq H d rm k r Hin Hr. rewrite (dispatch_get s src m ch Hq) in H.
+    destruct (m_a m) as [a|].
+    2:{ apply lift_error in H. destruct (proj2 H d rm k Hin) as (_ & _ & ->). discriminate. }
+    destruct (set_return_nodes _ _ _ _ _ _ _ _ _) as [r0|] eqn:Hs; [|discriminate].
+    destruct (create_token src (s_now s)) as [tok|] eqn:Htok; [|discriminate]. cbv zeta in H.
+    destruct (w_get (s_store s) (a_target a) (s_now s)) as [st res].
+    destruct res as [ | e | txt | it].
+    - apply lift_reply in H. destruct (proj2 H d rm k Hin) as (-> & -> & ->).
+      cbn in Hr. injection Hr as <-. split; [reflexivity|]. split; [reflexivity|]. exists tok. split; reflexivity.
+    - apply lift_error in H. destruct (proj2 H d rm k Hin) as (_ & _ & ->). discriminate.
+    - apply lift_error in H. destruct (proj2 H d rm k Hin) as (_ & _ & ->). discriminate.
+    - destruct (match a_seq a with Some q => Z.leb (it_seq it) q | None => false end).
+      + apply lift_reply in H. destruct (proj2 H d rm k Hin) as (-> & -> & ->).
+        cbn in Hr. injection Hr as <-. split; [reflexivity|]. split; [reflexivity|]. exists tok. split; reflexivity.
+      + destruct (it_bv it) as [bv|]; [|discriminate].
+        apply lift_reply in H. destruct (proj2 H d rm k Hin) as (-> & -> & ->).
+        cbn in Hr. injection Hr as <-. split; [reflexivity|]. split; [reflexivity|]. exists tok. split; reflexivity.
+  Qed.
+
+  (* tokens are handed out by get_peers (when the peer store is configured) and by get: every
+     reply carries the token for the querying address' To16 form and the current interval *)
+  Theorem C10_issue s src size m ch s' out d rm k r :
+    m_y m = s_q -> (m_q m = s_get_peers /\ c_peer_store cfg = true \/ m_q m = s_get) ->
+    step s (EPacket src size (Some m)) ch = SR Store s' out ->
+    In (ESend d rm k) out -> m_r rm = Some r ->
+    exists x, to16 (ip src) = Some x /\
+              r_token r = Some (token_for x (token_idx (s_now s))) /\
+              r_token r = create_token src (s_now s).
+  Proof.
+    intros Hy Hq H Hin Hr. apply bytes_eqb_eq in Hy.
+    destruct (step_query_inv s src size m ch s' out Hy H) as (s1 & Hrest & Hd).
+    assert (Hnow : s_now s1 = s_now s) by apply Hrest.
+    destruct (passes s src size m); [|destruct Hd as [_ ->]; destruct Hin].
+    assert (Hc : exists tok, create_token src (s_now s) = Some tok /\ r_token r = Some tok).
+    { destruct Hq as [(Hq & Hps) | Hq].
+      - destruct (m_a m) as [a|] eqn:Ea.
+        2:{ rewrite (dispatch_get_peers s1 src m ch Hq), Ea in Hd. apply lift_error in Hd.
+            destruct (proj2 Hd d rm k Hin) as (_ & _ & ->). discriminate. }
+        destruct (dispatch_get_peers_spec s1 src m a ch s' out Hq Ea Hps Hd) as (_ & _ & tok & Ht & Ho).
+        destruct (Ho d rm k Hin) as (_ & _ & r1 & Hr1 & _ & Ht1). rewrite Hr in Hr1. injection Hr1 as <-.
+        rewrite Hnow in Ht. exists tok. split; assumption.
+      - destruct (dispatch_get_spec s1 src m ch s' out Hq Hd d rm k r Hin Hr) as (_ & _ & tok & Ht & Ht1).
+        rewrite Hnow in Ht. exists tok. split; assumption. }
+    destruct Hc as (tok & Hc & Ht). rewrite Ht, Hc. unfold Server.create_token in Hc.
+    destruct (to16 (ip src)) as [x|]; [|discriminate]. apply Some_inj in Hc. subst tok.
+    exists x. repeat split.
   Qed.
 End C10.
